@@ -77,3 +77,17 @@ package annotation
 //@ func (FieldPath).Compare
 //@ prop C04
 //@ ensures zero-only-for-equal-paths (= (= result 0) (= p other))
+
+//@ -- C04: ObservedMap.Range visits the annotation sites in a deterministic order: the keys of each map are collected
+//@ -- and sorted by a comparator that is zero only for keys with the same sort key - the declaration position of the
+//@ -- object (ASSUMPTION, go/types: distinct declared objects of a package have distinct positions), resp. the call
+//@ -- site's file, offset and callee position (ASSUMPTION: line and column are functions of file and offset).
+//@ method go/types.Object Pos fn
+//@ func compareObjectPos
+//@ prop C04
+//@ ensures zero-only-for-objects-declared-at-the-same-position (= (= result 0) (= (mcall Pos a) (mcall Pos b)))
+//@ func compareCallSites
+//@ prop C04
+//@ ensures zero-only-for-call-sites-with-equal-sort-keys (= (= result 0)
+//@    (and (= a.Location.Filename b.Location.Filename) (= a.Location.Offset b.Location.Offset)
+//@         (= (callresn "object).Pos" 0) (callresn "object).Pos" 1))))
